@@ -186,16 +186,104 @@ def _run_task(args):
         return ("exc", f"{type(e).__name__}: {e}", traceback.format_exc()[-3000:])
 
 
-def fork_map(func, items, procs=None, chunk=1, fresh=True):
-    """run func(item) for every item, each in a freshly forked child (fresh=True) so that compiler
-    state cannot leak from one task to the next.  Returns the list of ('ok',result)|('exc',msg,tb)."""
+def _dirty(res):
+    """did this task possibly leave compiler state behind (exception / rejected design)?"""
+    return res[0] != "ok" or (isinstance(res[1], dict) and res[1].get("ok") is False)
+
+
+def _fork_fresh(func, items, procs, batch):
+    """Forked children process small batches sequentially; a child stops its batch right after the first
+    task that raised or returned {"ok": False} (a rejected design may leave compiler state behind) and the
+    rest of that batch is re-dispatched to a new fork.  (fork costs 20-150 ms in this sandbox, so one
+    fork per task is too slow; multiprocessing's maxtasksperchild=1 is slower still.)"""
+    import pickle
+    import selectors
+
+    n = len(items)
+    results = [None] * n
+    sel = selectors.DefaultSelector()
+    running = {}  # fd -> [indices, pid, bytearray]
+    queue = [list(range(i, min(i + batch, n))) for i in range(0, n, batch)]
+    sys.stdout.flush()
+    sys.stderr.flush()
+    while queue or running:
+        while queue and len(running) < procs:
+            idxs = queue.pop(0)
+            r, w = os.pipe()
+            pid = os.fork()
+            if pid == 0:
+                code = 0
+                try:
+                    os.close(r)
+                    for fd in list(running):
+                        try:
+                            os.close(fd)
+                        except OSError:
+                            pass
+                    out = []
+                    for i in idxs:
+                        res = _run_task((func, items[i]))
+                        out.append(res)
+                        if _dirty(res):
+                            break
+                    try:
+                        data = pickle.dumps(out)
+                    except Exception as e:  # noqa
+                        data = pickle.dumps([("exc", f"unpicklable result: {e}", "")])
+                    with os.fdopen(w, "wb") as f:
+                        f.write(data)
+                except BaseException:  # noqa
+                    code = 1
+                finally:
+                    os._exit(code)
+            os.close(w)
+            os.set_blocking(r, False)
+            running[r] = [idxs, pid, bytearray()]
+            sel.register(r, selectors.EVENT_READ)
+        for key, _ in sel.select(timeout=1.0):
+            fd = key.fd
+            ent = running[fd]
+            try:
+                chunk = os.read(fd, 1 << 20)
+            except BlockingIOError:
+                continue
+            if chunk:
+                ent[2] += chunk
+                continue
+            sel.unregister(fd)
+            os.close(fd)
+            del running[fd]
+            try:
+                os.waitpid(ent[1], 0)
+            except ChildProcessError:
+                pass
+            idxs = ent[0]
+            try:
+                out = pickle.loads(bytes(ent[2]))
+            except Exception as e:  # noqa
+                out = [("exc", f"worker died without a result ({e})", "")]
+            for i, res in zip(idxs, out):
+                results[i] = res
+            rest = idxs[len(out):]
+            if rest:
+                queue.insert(0, rest)
+    return results
+
+
+def fork_map(func, items, procs=None, chunk=1, fresh=True, batch=8):
+    """run func(item) for every item in forked children of a process that has imported cohdl but never
+    compiled anything.  fresh=True: no task ever runs after a task that raised or returned {"ok": False}
+    in the same interpreter (see _fork_fresh); batch=1 gives one fork per task.
+    Returns the list of ('ok',result)|('exc',msg,tb)."""
     items = list(items)
     if not items:
         return []
     import_cohdl()
     procs = procs or int(os.environ.get("COHDL_VERIF_PROCS", "0") or 0) or min(16, os.cpu_count() or 4)
+    if fresh:
+        return _fork_fresh(func, items, procs, max(1, batch))
     ctx = mp.get_context("fork")
-    with ctx.Pool(processes=procs, maxtasksperchild=1 if fresh else None) as pool:
+    with ctx.Pool(processes=procs) as pool:
         return pool.map(_run_task, [(func, it) for it in items], chunksize=chunk)
 
 
